@@ -13,7 +13,7 @@
    are unique; shared networks are not evaluation networks and shadow one network. *)
 From Coq Require Import List NArith QArith Bool.
 Import ListNotations.
-From AgileV Require Import Evo.Heap Evo.Evo Evo.EvoProofs C02.Model C02.Proofs.
+From AgileV Require Import Evo.Heap Evo.Evo Evo.EvoProofs C02.Model C02.Proofs C02.ProofsFollow.
 Open Scope N_scope.
 
 (* MUTATION COHERENT (one individual) — for every well-formed registry, every store, every mutation kind
@@ -50,6 +50,16 @@ Theorem opt_points_at_live_cells_reachable : forall (w : world) (ops : list op),
   WfRegs w -> AllCoherent w -> forall a, In a (w_pop (run w ops)) -> refs_live a.
 Proof. exact all_refs_live_lemma. Qed.
 Print Assumptions opt_points_at_live_cells_reachable.
+
+(* ... and, together with the separation invariant of C01, an optimizer never references a cell of ANOTHER member: in every
+   population reachable from a separated, coherent one, every optimizer reference of member i is a cell of member i and
+   of no member j <> i (so training one member cannot move another member's networks through a stale optimizer). *)
+Theorem opt_refs_own_cells_only : forall (w : world) (ops : list op),
+  WF w -> WfRegs w -> AllCoherent w ->
+  forall i j a b o l, nth_error (w_pop (run w ops)) i = Some a -> nth_error (w_pop (run w ops)) j = Some b -> i <> j ->
+  In o (a_opts a) -> In l (o_refs o) -> In l (agent_locs a) /\ ~ In l (agent_locs b).
+Proof. exact refs_own_cells_only_lemma. Qed.
+Print Assumptions opt_refs_own_cells_only.
 
 (* LEARN MOVES THE TRAINED NETWORKS (footprint) — one learn() of a coherent agent whose optimizers are registered for
    network attributes it has writes every cell any of its optimizers references: afterwards the cell holds a content
@@ -106,6 +116,35 @@ Theorem shared_arch_follows : forall (x : lstate),
 Proof. exact rebuild_shared_arch_ok. Qed.
 Print Assumptions shared_arch_follows.
 
+(* SHARED WEIGHTS FOLLOW — right after Mutations.mutation re-created the shared networks of an individual (all of them, one
+   after the other), every shared/target network holds, cell by cell, the contents of the evaluation network it shadows:
+   head parameters, constants, size lists, registered buffers ([copied_class]).  For every well-formed registry and every
+   individual whose cells are allocated and that has the shared network's block.  (The hooks that run afterwards only copy
+   evaluation -> target again (DQN), replace the encoders / encoder buffers of hook-shared networks, or re-initialise the
+   bandit tensors; the final state is compared by K.) *)
+Theorem shared_weights_follow : forall (x : lstate) (c : N),
+  copied_class c -> WfReg (a_reg (snd x)) ->
+  Forall (fun l => l < s_next (fst x)) (agent_locs (snd x)) ->
+  (forall s, In s (shared_names (a_reg (snd x))) -> has_key (s, c) x) ->
+  forall g s, In g (r_groups (a_reg (snd x))) -> In s (g_shared g) ->
+  map (rd (fst (rebuild_shared x))) (blk (snd (rebuild_shared x)) (s, c)) =
+  map (rd (fst (rebuild_shared x))) (blk (snd (rebuild_shared x)) (g_eval g, c)).
+Proof. exact shared_weights_follow_lemma. Qed.
+Print Assumptions shared_weights_follow.
+
+(* ... hence, for every registry WITHOUT mutation hooks (CQN, Rainbow, MADDPG, MATD3, IPPO, DDPG/TD3/PPO with unshared
+   encoders), in the state right after the whole Mutations.mutation of an individual — any kind, any shapes —: *)
+Theorem mutation_weights_follow_nohooks :
+  forall (k : mkind) (sh : list netshape) (label : N) (s : store) (a : agent) (c : N),
+  copied_class c -> wf_registry (a_reg a) = true -> r_hooks (a_reg a) = [] ->
+  Forall (fun l => l < s_next s) (agent_locs a) ->
+  (forall n, In n (shared_names (a_reg a)) -> In (n, c) (map fst (a_blocks a))) ->
+  forall g n, In g (r_groups (a_reg a)) -> In n (g_shared g) ->
+  let x' := mutate_agent k sh label (s, a) in
+  map (rd (fst x')) (blk (snd x') (n, c)) = map (rd (fst x')) (blk (snd x') (g_eval g, c)).
+Proof. exact mutation_weights_follow_nohooks_lemma. Qed.
+Print Assumptions mutation_weights_follow_nohooks.
+
 (* the mutation hooks leave every hook-shared network without exposed encoder parameters, from any state *)
 Theorem hooks_establish_sharing : forall x : lstate, hooked (snd (run_hooks x)).
 Proof. exact run_hooks_hooked. Qed.
@@ -133,12 +172,23 @@ Print Assumptions hp_first_only_refuted.
 Example ex_hypotheses : (WfRegs ex_world /\ AllCoherent ex_world) /\ (WfRegs ex_world_share /\ AllCoherent ex_world_share)
                         /\ (WfRegs ex_world_sync /\ AllCoherent ex_world_sync).
 Proof. exact (conj ex_world_good (conj ex_world_share_good ex_world_sync_good)). Qed.
+Example ex_world_separated : WF ex_world /\ WF ex_world_share /\ WF ex_world_sync.
+Proof. repeat split; apply sep_b_WF; vm_compute; reflexivity. Qed.
 Example ex_history_coherent :
   all_coherent_b (run ex_world ex_history) = true /\ length (w_pop (run ex_world ex_history)) = 3%nat /\
   AllCoherent (run ex_world ex_history).
 Proof.
   split; [vm_compute; reflexivity|split; [vm_compute; reflexivity|]].
   apply generations_coherent; apply ex_world_good.
+Qed.
+Example ex_weights_follow_hypotheses :
+  let x := (mkStore 22 100 hempty, ex_agent 0 0) in
+  WfReg (a_reg (snd x)) /\ Forall (fun l => l < s_next (fst x)) (agent_locs (snd x)) /\
+  (forall s, In s (shared_names (a_reg (snd x))) -> has_key (s, cHead) x).
+Proof.
+  cbv zeta. split; [apply wf_registry_WfReg; reflexivity|]. split.
+  - apply Forall_forall. intros l Hl. apply N.ltb_lt. revert l Hl. apply Forall_forall. vm_compute. repeat constructor.
+  - intros s Hs. cbn in Hs. unfold has_key. cbn. intuition (subst; tauto).
 Qed.
 Example ex_share_mutations_coherent :
   all_coherent_b (run ex_world_share [Mutate 0 MArch [mkShape 1 5 2 1 0 0 1 0; mkShape 3 6 2 1 0 0 1 0] 5;
